@@ -300,6 +300,14 @@ class C13(Prop):
                 self.compare(w, g1, byid, value, combo, True, False, key, hier, "%s/%s" % (disc, kind))
         w.count("probe.shapes_checked")
 
+    @staticmethod
+    def _parent_policy(e):
+        """Naming policy of the scope an element is looked up in (the '.NS' entry of its parent)."""
+        k = kind_of(e)
+        parent = (e.netlist if k == "library" else e.library if k == "definition" else
+                  e.definition if k in ("port", "cable") else e.parent if k == "instance" else None)
+        return parent.get(".NS") if parent is not None else None
+
     def _ci_slack(self, key, hier):
         return (not hier) and key == "EDIF.identifier"
 
@@ -311,7 +319,8 @@ class C13(Prop):
             if any(matches(v, p, is_case, is_re) for p in pats):
                 lower.add(i)
                 upper.add(i)
-            elif self._ci_slack(key, hier) and any(matches(v, p, False, is_re) for p in pats if not has_wild(p)):
+            elif self._ci_slack(key, hier) and self._parent_policy(e) == "EDIF" and any(
+                    matches(v, p, False, is_re) for p in pats if not has_wild(p)):
                 upper.add(i)  # an exact identifier may be matched case-insensitively under the EDIF policy
         if got - set(byid):
             raise Violation("C13.filter_mismatch.not_in_unfiltered", disc,
